@@ -1,6 +1,8 @@
 package main
 
 import (
+	"path/filepath"
+	"strings"
 	"sort"
 	"go/token"
 	"go/types"
@@ -204,6 +206,9 @@ func immutableWriters(p *Program, specs *Specs) (unverified []string) {
 	seen := map[string]bool{}
 	var visit func(f *ssa.Function)
 	visit = func(f *ssa.Function) {
+		if pos := p.SSA.Fset.Position(f.Pos()); strings.HasPrefix(filepath.Base(pos.Filename), "zz_verif") {
+			return // specification functions and replay builders of the verif build
+		}
 		for _, b := range f.Blocks {
 			for _, in := range b.Instrs {
 				what := ""
